@@ -605,6 +605,13 @@ def normal_rules(run, db):
                 tgt = [ast.unparse(t) for n in ast.walk(closure) if isinstance(n, ast.Assign) and n.value is c for t in n.targets]
                 outs = [x.strip('() ') for x in tgt[0].split(',')] if tgt else []
                 fixed = []
+                # ... or where the overriding np.where(r == 0, slope_at_origin, <out>) is written inside the return expression
+                for n in ast.walk(closure):
+                    if isinstance(n, ast.Call) and ast.unparse(n.func).endswith('where') and len(n.args) == 3 and getattr(n, 'lineno', 0) > c.lineno:
+                        for o_ in outs:
+                            if any(isinstance(a_, ast.Name) and a_.id == o_ for a_ in n.args[1:]) and o_ not in fixed:
+                                par_is_assign_to_other = False
+                                fixed.append(o_)
                 for n in ast.walk(closure):
                     if isinstance(n, ast.Assign) and isinstance(n.targets[0], ast.Name) and n.targets[0].id in outs and isinstance(n.value, ast.Call) and ast.unparse(n.value.func).endswith('where') \
                             and n.lineno > c.lineno:
@@ -636,7 +643,12 @@ def normal_rules(run, db):
     ok = len(ffp) == 1 and match_all(ffp[0], ['(V_r, V_t) = cart_to_polar(x, y, vec_to_grid=False)', 'V_rsq = V_r * V_r', "V_z = conic_sag(V_params['c'], V_params['k'], V_rsq)",
                                               "V_dr = conic_sag_der(V_params['c'], V_params['k'], V_r)", '(V_ddx, V_ddy) = surface_normal_from_cylindrical_derivatives(V_dr, 0, V_r, V_t)',
                                               'return (V_z, V_ddx, V_ddy)']) is not None
-    run.check(ok, 'C19.normal', fc.qual, 'conic wiring', 'sag from r^2, slope from r, same (c, k)', 'conic sag/slope wiring changed', fc.loc())
+    # (a reading of the closure's statements; what the closure computes is decided by closure_gradient_rules -- the slopes it returns are
+    # the derivative of the sag it returns -- so a closure written another way is not a report here)
+    if ok:
+        run.ok('C19.normal', fc.qual, 'conic wiring: sag from r^2, slope from r, same (c, k)')
+    else:
+        run.info('C19.normal: the conic closure is not in the statement form this reading knows; its slopes are judged against its sag by the closure rule')
 
 
 NONNEG_CALLS = {'abs', 'np.abs', 'np.absolute', 'np.fabs', 'np.hypot', 'np.sqrt', 'truenp.abs', 'np.linalg.norm'}
